@@ -27,6 +27,7 @@ type clusterLink struct {
 	ctx     context.Context
 	cancel  context.CancelFunc
 	ro      *syncer.RedisOutput
+	reuse   bool // the next start runs on the same output object
 	reader  *stubReader
 	fedTo   int64
 	phase   int
@@ -57,7 +58,11 @@ func newClusterLink(r *Run, cfg PipeCfg, st *Stream) *clusterLink {
 func (l *clusterLink) start() {
 	oc := l.cfg.outputConfig(l.runID, l.cpName)
 	l.ctx, l.cancel = context.WithCancel(context.Background())
-	l.ro = syncer.NewRedisOutput(oc)
+	if l.reuse && l.ro != nil {
+		l.reuse = false // in-process restart: RedisInput.Run calls run() again with the same output object
+	} else {
+		l.ro = syncer.NewRedisOutput(oc)
+	}
 	l.mu.Lock()
 	l.spErr, l.sendErr, l.phase = nil, nil, 0
 	l.mu.Unlock()
